@@ -903,7 +903,7 @@ def compile_main(raw_args: Optional[Sequence[str]] = None) -> None:
             pass
         delete_wheeldir = False
     else:
-        wheeldir = tempfile.mkdtemp()
+        # The temporary directory itself is created right before it is needed.
         delete_wheeldir = True
 
     input_args = args.requirement_files
@@ -921,8 +921,6 @@ def compile_main(raw_args: Optional[Sequence[str]] = None) -> None:
         ]
     except ValueError as ex:
         print(f"ERROR: {ex}", file=sys.stderr)
-        if delete_wheeldir:
-            shutil.rmtree(wheeldir)
         sys.exit(1)
 
     for req in list(input_reqs):
@@ -984,6 +982,8 @@ def compile_main(raw_args: Optional[Sequence[str]] = None) -> None:
             )
             constraint_reqs.append(extra_constraint)
 
+    if delete_wheeldir:
+        wheeldir = tempfile.mkdtemp()
     try:
         repo = build_repo(
             args.solutions,
